@@ -336,6 +336,14 @@ func typeAssert(n *node, withResult, withOk bool) {
 	rtype := typ.refType(nil) // type to assert
 	next := getExec(n.tnext)
 
+	// failed ends a failed assertion to an interface type: the single-value form panics.
+	failed := func(from, method string) bltn {
+		if !withOk {
+			panic(n.cfgErrorf("interface conversion: %s is not %s: missing method %s", from, typID, method))
+		}
+		return next
+	}
+
 	switch {
 	case isInterfaceSrc(typ):
 		n.exec = func(f *frame) bltn {
@@ -373,7 +381,7 @@ func typeAssert(n *node, withResult, withOk bool) {
 				var meth0 string
 				meth0, ok = m0[k]
 				if !ok {
-					return next
+					return failed(v.node.typ.id(), k)
 				}
 				// As far as we know this equality check can fail because they are two ways to
 				// represent the signature of a method: one where the receiver appears before the
@@ -386,19 +394,19 @@ func typeAssert(n *node, withResult, withOk bool) {
 				tm := lookupFieldOrMethod(v.node.typ, k)
 				if tm == nil {
 					ok = false
-					return next
+					return failed(v.node.typ.id(), k)
 				}
 
 				var err error
 				meth0, err = stripReceiverFromArgs(meth0)
 				if err != nil {
 					ok = false
-					return next
+					return failed(v.node.typ.id(), k)
 				}
 
 				if meth0 != meth1 {
 					ok = false
-					return next
+					return failed(v.node.typ.id(), k)
 				}
 			}
 
@@ -418,20 +426,15 @@ func typeAssert(n *node, withResult, withOk bool) {
 			if ok && val.node.typ.cat != valueT {
 				m0 := val.node.typ.methods()
 				m1 := typ.methods()
-				if len(m0) < len(m1) {
-					ok = false
-					return next
-				}
-
 				for k, meth1 := range m1 {
 					var meth0 string
 					meth0, ok = m0[k]
 					if !ok {
-						return next
+						return failed(val.node.typ.id(), k)
 					}
 					if meth0 != meth1 {
 						ok = false
-						return next
+						return failed(val.node.typ.id(), k)
 					}
 				}
 
